@@ -66,12 +66,14 @@ func (h *echoHandler) StateChangeHandler(s state.State) error {
 // forwarder is a TCP relay between the two socket-proxy sides that can cut a
 // connection after a given number of bytes in either direction.
 type forwarder struct {
+	addrStr  string
 	ln       net.Listener
 	target   string
 	mu       sync.Mutex
 	cutAfter int // bytes of the next connection's client->server stream before cutting (-1: never)
 	cutBack  int // bytes of the server->client stream before cutting (-1: never)
 	cuts     int
+	conns    []net.Conn
 }
 
 func newForwarder(target string) (*forwarder, error) {
@@ -79,16 +81,40 @@ func newForwarder(target string) (*forwarder, error) {
 	if err != nil {
 		return nil, err
 	}
-	f := &forwarder{ln: ln, target: target, cutAfter: -1, cutBack: -1}
+	f := &forwarder{ln: ln, addrStr: ln.Addr().String(), target: target, cutAfter: -1, cutBack: -1}
 	go f.serve()
 	return f, nil
 }
 
-func (f *forwarder) addr() string { return f.ln.Addr().String() }
+func (f *forwarder) addr() string { return f.addrStr }
+
+// down makes the application unreachable (connection refused); up restores it.
+func (f *forwarder) down() {
+	f.ln.Close()
+	f.mu.Lock()
+	for _, c := range f.conns {
+		c.Close()
+	}
+	f.conns = nil
+	f.mu.Unlock()
+}
+func (f *forwarder) up() error {
+	for i := 0; i < 200; i++ {
+		ln, err := net.Listen("tcp", f.addrStr)
+		if err == nil {
+			f.ln = ln
+			go f.serve()
+			return nil
+		}
+		time.Sleep(5 * time.Millisecond)
+	}
+	return fmt.Errorf("cannot listen again on %s", f.addrStr)
+}
 
 func (f *forwarder) serve() {
+	ln := f.ln
 	for {
-		c, err := f.ln.Accept()
+		c, err := ln.Accept()
 		if err != nil {
 			return
 		}
@@ -102,6 +128,9 @@ func (f *forwarder) serve() {
 				c.Close()
 				return
 			}
+			f.mu.Lock()
+			f.conns = append(f.conns, c, s)
+			f.mu.Unlock()
 			pipe := func(dst, src net.Conn, limit int) {
 				if limit < 0 {
 					io.Copy(dst, src)
@@ -254,6 +283,7 @@ func runC20(cs CaseSpec) *CaseResult {
 
 	rounds := int(cs.I("rounds", 60))
 	faults := cs.I("faults", 0) == 1 && fw != nil
+	downFor := 0
 	for i := 0; i < rounds; i++ {
 		res.Evaluations++
 		// --- a block and its response
@@ -275,7 +305,16 @@ func runC20(cs CaseSpec) *CaseResult {
 		before := len(h.blocks)
 		h.mu.Unlock()
 		cut := false
-		if faults && rng.Intn(3) == 0 {
+		if faults && downFor == 0 && i%12 == 7 {
+			// the application goes away for a few consecutive calls
+			fw.down()
+			downFor = 2 + rng.Intn(2)
+			res.count("proxy_application_unreachable_periods", 1)
+		}
+		if downFor > 0 {
+			cut = true
+		}
+		if faults && downFor == 0 && rng.Intn(3) == 0 {
 			// drop the current connection mid-call: the next connection is cut after k bytes
 			fw.mu.Lock()
 			if rng.Intn(2) == 0 {
@@ -314,6 +353,30 @@ func runC20(cs CaseSpec) *CaseResult {
 				res.violate("C20", "C20:commit-fails-without-fault", "CommitBlock failed although nothing was injected: "+err.Error(), map[string]interface{}{"mode": mode})
 				return res
 			}
+		}
+		if downFor > 0 {
+			downFor--
+			if err == nil {
+				res.violate("C20", "C20:success-while-application-unreachable", "CommitBlock reported success while the application could not be reached", map[string]interface{}{"mode": mode})
+				return res
+			}
+			// the other calls must fail as well
+			if _, serr := getSnapshot(i); serr == nil {
+				res.violate("C20", "C20:success-while-application-unreachable", "GetSnapshot reported success while the application could not be reached", map[string]interface{}{"mode": mode})
+				return res
+			}
+			if rerr := restore([]byte("x")); rerr == nil {
+				res.violate("C20", "C20:success-while-application-unreachable", "Restore reported success while the application could not be reached", map[string]interface{}{"mode": mode})
+				return res
+			}
+			res.count("proxy_calls_failing_while_application_unreachable", 3)
+			if downFor == 0 {
+				if err := fw.up(); err != nil {
+					res.inconclusive(err.Error())
+					return res
+				}
+			}
+			continue
 		}
 		if len(seen) > 3 {
 			res.violate("C20", "C20:handler-run-too-often", fmt.Sprintf("one CommitBlock call ran the application handler %d times", len(seen)), nil)
